@@ -79,6 +79,14 @@ Definition spec_call (k : hkind) (u : expr) : expr :=
   | HSslTls safe => with_args u (set_param (S_ "protocol") 0 safe (args_of u))
   | HPyyaml _ safe => with_args u (set_param (S_ "Loader") 1 safe (args_of u))
   | HLimitReadline lim => match args_of u with [] => with_args u [mkArg None 0 0 0 lim] | _ => u end
+  | HSendFile _ p0 p1 m =>
+      (* documented: the arguments after the path keep their order; plain positionals before any `*a`/`**k` get their
+         parameter name; starred arguments and everything after them are carried over untouched *)
+      match positional_to_keyword P2kCarriesOver false (tl (args_of u)) m with
+      | Some r => with_func (with_args u (mkArg None 0 0 0 p0 :: mkArg None 0 0 0 p1 :: r))
+                            (EAttr (EName (S_ "flask")) (S_ "send_from_directory"))
+      | None => u
+      end
   | _ => on_result_found_upd k u
   end.
 Fixpoint rw_spec (k : hkind) (e : expr) : expr :=
